@@ -518,3 +518,8 @@ Lemma mktokens_partition s : exists toks rest, MkTokens s = Ok (toks, rest) /\ p
 Proof.
   unfold MkTokens. apply (mk_tokens_loop_ok Expr (length s) (Expr_ok _)); lia.
 Qed.
+
+Lemma expr_total s : Expr s <> OutOfFuel /\ Expr s <> Panic.
+Proof.
+  destruct (expr_advance s) as [E | (r & E & _)]; rewrite E; split; discriminate.
+Qed.
